@@ -639,7 +639,7 @@ O(id='CHOICE_decode_uper.b3', props=['C03', 'C04', 'C14'], kind='bounded', entry
 STB = dict(harness='harness/h_set_ber.c', units=[SK + 'constr_SET.c', SK + 'ber_decoder.c', SK + 'ber_tlv_tag.c', SK + 'ber_tlv_length.c'],
            link=[SK + 'ber_decoder.c', SK + 'ber_tlv_tag.c', SK + 'ber_tlv_length.c'], stubs=['stubs/bsearch.c'],
            fp_restrict=[(r'ber_decoder\)$', ['sv_ber']), (r'free_struct\)$', ['sv_free']), (r'compar$', ['_t2e_cmp'])], trusted=[STUBT, 'stubs/bsearch.c'])
-_ub = 'ber_fetch_tag.0:11,ber_fetch_length.0:11,h_SET_decode_ber.0:11,h_SET_decode_ber.1:11,h_SET_decode_ber_chunked.0:11,h_SET_decode_ber_chunked.1:11'
+_ub = 'bsearch.0:10,ber_fetch_tag.0:11,ber_fetch_length.0:11,h_SET_decode_ber.0:11,h_SET_decode_ber.1:11,h_SET_decode_ber_chunked.0:11,h_SET_decode_ber_chunked.1:11'
 O(id='SET_decode_ber.b8', props=['C04', 'C14'], kind='bounded', tier='experimental', entry='h_SET_decode_ber',
   functions=['SET_decode_ber', 'ber_check_tags', 'ber_fetch_tag', 'ber_fetch_length', '_t2e_cmp', '_SET_is_populated', 'SET_free'],
   defines=['VF_N=8'], unwind=6, cbmc=['--unwindset', _ub, '--malloc-may-fail', '--malloc-fail-null', '--memory-leak-check'],
@@ -661,6 +661,13 @@ O(id='_search4tag.order', props=['C03', 'C05'], kind='width', entry='h_search4ta
 
 O(id='_t2e_cmp', props=['C03', 'C05', 'C19'], kind='width', entry='h_t2e_cmp', enforce=['_t2e_cmp'], functions=['_t2e_cmp'], harness='harness/h_seq_helpers.c',
   units=[SK + 'constr_SEQUENCE.c'], include=['contracts/constr_SEQUENCE.h'], backends=['cvc5', 'sat'], unwind=4, bound='loop-free; every pair of table entries', min_props=10, timeout=300)
+
+OSX = dict(harness='harness/h_os_xer_body.c', units=[SK + 'OCTET_STRING.c'], stubs=['stubs/realloc64.c'], trusted=['stubs/realloc64.c replaces the CBMC realloc model'],
+           defines=['VF_N=6'], unwind=9, cbmc=['--unwindset', 'realloc.0:66', '--no-malloc-may-fail'])
+O(id='OCTET_STRING__convert_hexadecimal.t6', props=['C03', 'C04', 'C05'], kind='bounded', entry='h_convert_hexadecimal', functions=['OCTET_STRING__convert_hexadecimal'],
+  bound='every text of at most 6 characters, every split point (two chunks)', min_props=40, timeout=900, **OSX)
+O(id='OCTET_STRING__convert_binary.t6', props=['C03', 'C04', 'C05'], kind='bounded', entry='h_convert_binary', functions=['OCTET_STRING__convert_binary'],
+  bound='every text of at most 6 characters, every split point (two chunks)', min_props=40, timeout=900, **OSX)
 
 for _o in OBLIGATIONS:
     if _o.get('enforce') and _o.get('kind') in ('enforce', 'width') and _o.get('tier') == 'quick' and 'C19' not in _o['props']:
